@@ -330,7 +330,12 @@ std::vector<float> spreadCells(const std::vector<float> &targets,
 
 std::vector<float> HierarchicalDensityPlacement::spreadCoordX(
     const std::vector<float> &target) const {
+  // Cells that are in no bin (no area) stay at their target, inside the area
   std::vector<float> ret(nbCells(), 0.0f);
+  Rectangle area = placementArea();
+  for (int c = 0; c < nbCells(); ++c) {
+    ret[c] = std::min(std::max(target[c], (float)area.minX), (float)area.maxX);
+  }
   for (int i = 0; i < nbBinsX(); ++i) {
     for (int j = 0; j < nbBinsY(); ++j) {
       std::vector<float> binTargets;
@@ -351,7 +356,12 @@ std::vector<float> HierarchicalDensityPlacement::spreadCoordX(
 
 std::vector<float> HierarchicalDensityPlacement::spreadCoordY(
     const std::vector<float> &target) const {
+  // Cells that are in no bin (no area) stay at their target, inside the area
   std::vector<float> ret(nbCells(), 0.0f);
+  Rectangle area = placementArea();
+  for (int c = 0; c < nbCells(); ++c) {
+    ret[c] = std::min(std::max(target[c], (float)area.minY), (float)area.maxY);
+  }
   for (int i = 0; i < nbBinsX(); ++i) {
     for (int j = 0; j < nbBinsY(); ++j) {
       std::vector<float> binTargets;
